@@ -374,6 +374,20 @@ def conclude(ctx, violations, level, coverage, assumptions, extra=None):
 def main_wrapper(prop, fn):
     """fn(ctx) -> exit status.  Handles argv (--tier, --replay), seed, scratch, exit 2."""
     import argparse
+    # A check started as a background job of a non-interactive shell inherits SIGINT / SIGQUIT ignored, and Go programs
+    # keep inherited ignores: the interrupt testscript sends to a background command (SIGINT) or to a command that runs
+    # into the deadline (SIGQUIT) would then do nothing and the scripts under observation would never end.  The checks
+    # observe the code under default dispositions, whatever the caller's shell did.
+    for sig in (signal.SIGINT, signal.SIGQUIT, signal.SIGTERM, signal.SIGHUP):
+        try:
+            if signal.getsignal(sig) == signal.SIG_IGN:
+                signal.signal(sig, signal.default_int_handler if sig == signal.SIGINT else signal.SIG_DFL)
+        except (OSError, ValueError):
+            pass
+    try:
+        signal.pthread_sigmask(signal.SIG_UNBLOCK, {signal.SIGINT, signal.SIGQUIT, signal.SIGTERM, signal.SIGHUP, signal.SIGPIPE, signal.SIGCHLD})
+    except (OSError, ValueError, AttributeError):
+        pass
     ap = argparse.ArgumentParser()
     ap.add_argument("--tier", default=os.environ.get("VERIF_TIER", "quick"), choices=["quick", "thorough"])
     ap.add_argument("--replay", default=None)
